@@ -30,6 +30,9 @@ CHECKS = {
  "C14": ("proptest-generated CORS policies × application trees × simple/preflight requests; oracle = reference CORS model derived from the statement, fed with the policy and the flattened route table",
          "Exploration of policies × configurations × requests through the real CORS fang, automatic OPTIONS handlers, router and serializer. Right level: the property fails through interactions of registration shape (methods split over items/mounts) with preflights, which need generated configurations.",
          "policy on the root application; HEAD/OPTIONS as requested method accept either outcome; Vary unchecked", "DESIGN.md §7 C14"),
+ "C15": ("proptest-generated applications assembled from a compiled handler catalogue (mounts, param prefixes, tags, JWT/BasicAuth fangs at any level); oracle = JSON parse + JSON Schema 2020-12 meta-validation of every embedded schema (Python jsonschema sidecar) + $ref resolution + set equality with the flattened route table + per-operation expectations from the handler signature + one real request per documented operation",
+         "Exploration of configurations: 6 000 (quick) generated applications, each document checked completely in both directions (documented ⇔ registered). Right level: the document is a pure function of the configuration; its defects depend on signature/route combinations.",
+         "mounts get a first segment of their own; tags and operationId uniqueness unchecked; python3-vt + jsonschema available", "DESIGN.md §7 C15"),
  "C17": ("proptest-generated message sequences × producer schedules (scripted Pending polls on the harness's own executor) through the real handler/stream/serializer; oracle chain: independent response parser → strict chunk decoder (cross-checked with chunked_transfer) → independent WHATWG event-stream parser",
          "Exploration of inputs × schedules: 60 000 (quick) sequences of up to 12 adversarial messages under scripted paces for two producer kinds. Right level: the property is about what a conforming client decodes; an independent decoder chain is the direct oracle, and the schedule is owned by the harness.",
          "a self-waking Pending models any pace of the producer; messages without NUL", "DESIGN.md §7 C17"),
